@@ -342,10 +342,20 @@ def compare(lf, exp, rows, case, cname, phase):
                 f"{_short(case)}: {got.shape} site likelihoods for {nsites} sites")
     bad = ~(numpy.abs(got - want) <= RTOL * numpy.abs(want) + ATOL)
     if bad.any():
-        s = int(numpy.argmax(numpy.where(bad, numpy.abs(got - want) / (numpy.abs(want) + ATOL), 0)))
+        # witness: the simplest failing column (plain < degenerate < gap), largest relative error within its class
+        rel = numpy.where(bad, numpy.abs(got - want) / (numpy.abs(want) + ATOL), 0)
+        order = ["plain-column", "degenerate-column", "gap-column"]
+        pick = None
+        for s_ in numpy.argsort(-rel)[:min(int(bad.sum()), 3000)]:
+            f_ = _col_feature([rows[t][s_ * k:(s_ + 1) * k] for t in tips], fam)
+            if pick is None or order.index(f_) < order.index(pick[1]):
+                pick = (int(s_), f_)
+            if f_ == "plain-column":
+                break
+        s, feature = pick
         words = [rows[t][s * k:(s + 1) * k] for t in tips]
         stage = _stage(lf, exp, case)
-        return ("fail", f"{cname}/{model}/{phase}/site-likelihood/{stage}/{_col_feature(words, fam)}",
+        return ("fail", f"{cname}/{model}/{phase}/site-likelihood/{stage}/{feature}",
                 f"{_short(case)}: site {s} column {dict(zip(tips, words))}: lf gives {got[s]!r}, sum-product gives "
                 f"{want[s]!r} ({int(bad.sum())} of {nsites} sites differ)")
     if (want <= 0).any():
@@ -527,22 +537,28 @@ def _rename(case, mapping):
 
 
 def _random_tree(rnd, ntips):
-    """random rooted shape with polytomies, tips t1..tn, internal nodes n1.., lengths in the newick"""
-    parts = [(f"t{i + 1}", 1) for i in range(ntips)]
+    """random rooted shape with polytomies, tips t1..tn, internal nodes n1..  -> (newick, {edge: length});
+    the lengths are applied by rules (a zero length inside a newick means 'use the default' to cogent3)"""
+    parts = [f"t{i + 1}" for i in range(ntips)]
+    lengths = {}
     k = 0
-    lens = lambda: rnd.choice([0.0, 1e-3, 0.1, 1.5, round(rnd.uniform(0.001, 2.5), 4)])
-    while len(parts) > 1:
+
+    def child(g):
+        nm = g[g.rindex(")") + 1:] if g.endswith(tuple("0123456789")) and ")" in g else g
+        lengths[nm] = rnd.choice([0.0, 1e-3, 0.1, 1.5, round(rnd.uniform(0.001, 2.5), 4)])
+        return f"{g}:1.0"
+    while True:
         if len(parts) <= 3 and rnd.random() < 0.5:
             take = len(parts)
         else:
             take = min(len(parts), rnd.choice([2, 2, 2, 3]))
         rnd.shuffle(parts)
         grp, parts = parts[:take], parts[take:]
+        inner = "(" + ",".join(child(g) for g in grp) + ")"
         if not parts:
-            return "(" + ",".join(f"{g}:{lens()}" for g, _ in grp) + ");"
+            return inner + ";", lengths
         k += 1
-        parts.append(("(" + ",".join(f"{g}:{lens()}" for g, _ in grp) + f")n{k}", sum(w for _, w in grp)))
-    return parts[0][0] + ";"          # not reached
+        parts.append(f"{inner}n{k}")
 
 
 def gen_nucleotide(tier, seed):
@@ -608,7 +624,7 @@ def gen_nucleotide(tier, seed):
         # beyond the frontier: random trees on 6-8 tips, random lengths, random columns over every IUPAC symbol
         for j in range(1200):
             ntips = rnd.choice([6, 7, 8])
-            tr = _random_tree(rnd, ntips)
+            tr, la = _random_tree(rnd, ntips)
             model = NUC_MODELS[j % len(NUC_MODELS)]
             names = MODELS[model][3]
             params = {p: round(math.exp(rnd.uniform(math.log(0.05), math.log(20))), 4) for p in names}
@@ -616,7 +632,7 @@ def gen_nucleotide(tier, seed):
             pi = {b: round(x / sum(w), 6) for b, x in zip("ACGT", w)}
             pi["T"] = round(1 - pi["A"] - pi["C"] - pi["G"], 6)
             cols = [[rnd.choice(IUPAC if rnd.random() < 0.4 else "ACGT") for _ in range(ntips)] for _ in range(60)]
-            case = {"model": model, "tree": tr, "len_via": "tree", "rules": _rules({}, params, "tree"),
+            case = {"model": model, "tree": tr, "len_via": "rule", "rules": _rules(la, params),
                     "aln": {"columns": cols + cols[:7]}}
             if MODELS[model][2] != "equal":
                 case["pi"] = pi
@@ -869,14 +885,21 @@ CODON_WORDS = ["ATG", "TGG", "CGA", "AGA", "TTA", "CTG", "GCC", "TAC", "ACN", "T
                "TGY", "CCG", "CGG"]
 
 
+CODON_WORDS_GC2 = ["ATG", "TGA", "CGA", "ATA", "TTA", "CTG", "GCC", "TAC", "ACN", "TAN", "---", "A-G", "RTG", "NNN",
+                   "TGR", "AGN", "CGG"]
+
+
 def gen_codon(tier, seed):
     thorough = tier == "thorough"
     trees = ["(a:0.3,b:0.1);", "(a:0.1,b:0.3,c:0.25);", "((a:0.1,b:0.0)n1:0.2,c:0.4,d:1.5);"]
     states = S.states_of("codon")
-    models = ["MG94HKY", "GY94", "CNFGTR", "MG94GTR", "CNFHKY", "Y98", "GNC"] if thorough else ["MG94HKY", "CNFGTR"]
+    models = ["MG94HKY", "GY94", "CNFGTR", "MG94GTR", "CNFHKY", "Y98", "GNC", "MG94HKY:gc2", "GY94:gc2"] \
+        if thorough else ["MG94HKY", "CNFGTR"]
     i = 0
     for model in models:
         names = MODELS[model][3]
+        states = S.states_of(MODELS[model][0])
+        words = CODON_WORDS_GC2 if model.endswith(":gc2") else CODON_WORDS
         for tr in (trees if thorough else trees[1:2]):
             tree = S.parse_newick(tr)
             ntips = len(S.tip_names(tree))
@@ -889,11 +912,11 @@ def gen_codon(tier, seed):
                               for n, p in enumerate(names)}
                     params["omega"] = om
                     if ntips == 2:
-                        aln = {"words": states + CODON_WORDS[8:], "stride": 7 if thorough else 41, "offset": i % 7}
+                        aln = {"words": states + words[8:], "stride": 7 if thorough else 41, "offset": i % 7}
                     elif ntips == 3:
-                        aln = {"words": CODON_WORDS, "stride": 5 if thorough else 23, "dup": 7}
+                        aln = {"words": words, "stride": 5 if thorough else 23, "dup": 7}
                     else:
-                        aln = {"words": CODON_WORDS, "stride": 97, "dup": 7}
+                        aln = {"words": words, "stride": 97, "dup": 7}
                     la = {n["name"]: n["length"] for n in S.nodes(tree)[1:]}
                     case = {"model": model, "tree": tr, "pi": pi, "rules": _rules(la, params), "aln": aln}
                     if i % 2 == 0:
